@@ -206,8 +206,9 @@ struct SIMDVector {
     }
 
     template<typename U>
-    FASTOR_INLINE SIMDVector<U,ABI> cast() {
-        SIMDVector<U,ABI> out;
+    FASTOR_INLINE SIMDVector<U,simd_abi::fixed_size<Size>> cast() {
+        // same number of lanes as the source: SIMDVector<U,ABI> has a different lane count whenever sizeof(U) != sizeof(T)
+        SIMDVector<U,simd_abi::fixed_size<Size>> out;
         for (FASTOR_INDEX i=0; i<Size;++i) {
             out.value[i] = static_cast<U>(value[i]);
         }
